@@ -380,6 +380,22 @@ Requests(N, HC, CC, TT) ==
             n \in 0..N, t \in TT, m \in 0..N}
   \cup {[op |-> "Restart"]}
 
+\* Deep-index alphabet for the counterparty side: the run starts after an honest prefix
+\* (SignCp 0..B, ValidateRevocation 0..B-2, tree A, content A); the numbers straddle B so
+\* that the secret store is exercised where the index has many trailing zero bits.
+DeepCpRequests(B, N, CC, TT) ==
+       {[op |-> "SignCp", n |-> n, t |-> t, c |-> c] : n \in (B + 1)..(B + N + 1), t \in TT, c \in CC}
+  \cup {[op |-> "ValidateRevocation", n |-> n, t |-> t, m |-> m] :
+            n \in (B - 1)..(B + N), t \in TT, m \in (B - 1)..(B + N)}
+  \cup {[op |-> "Restart"]}
+
+\* the history of that honest prefix, as the ghost variables would have recorded it
+PrefixGhost(B) ==
+  IF B = 0 THEN InitGhost ELSE
+  [InitGhost EXCEPT !.cpSigned  = {<<n, [t |-> "A", n |-> n], "A">> : n \in 0..B},
+                    !.cpRevoked = 0..(B - 2),
+                    !.cpSecrets = {<<n, [t |-> "A", n |-> n]>> : n \in 0..(B - 2)}]
+
 \* protocol-handler level alphabet (protocol versions 4, 5, 6)
 HandlerRequests(N, HC, TT) ==
        {[op |-> "HValidate", v |-> v, n |-> n, c |-> c, sig |-> sg] :
